@@ -77,6 +77,9 @@ def run(tier):
     ctl = [{"id": i, "nodes": n, "keyspaces": k, "tables": t, "sys_page": p, "empty": e}
            for i, (n, k, t, p, e) in enumerate((n, k, t, p, e) for n in (1, 2, 3, 5) for k in (0, 1, 3) for t in (0, 1, 3) for p in (0, 1, 2, 4) for e in (0, 1)
                                                if not (k == 0 and t > 0) and not (e == 1 and p == 0))]
+    # a busy node: every page of the system tables takes 70 ms, the client-side timeout of a metadata request is 500 ms
+    # (a table read in 18 or more pages takes longer than that in total, no single page does)
+    ctl += [{"id": len(ctl) + j, "nodes": n, "keyspaces": 3, "tables": 3, "sys_page": 1, "empty": 0, "slow": 1} for j, n in enumerate((1, 3))]
     cin, cout = os.path.join(wd, "ctl.ndjson"), os.path.join(wd, "ctl.out.ndjson")
     write_ndjson(cin, ctl)
     run_harness("vh-driver", ["c07-control", cin, cout], timeout=1800)
